@@ -83,8 +83,10 @@ finally:
     shutil.rmtree(out, ignore_errors=True)
 assert sh('git -C /repo status --porcelain').stdout.strip() == ''
 meta['silent'] = all(x['exit'] == 0 for x in meta['ran'])
+# the agent only had to preserve ITS property: an alarm of a neighbouring check may be a true break of that other property
+meta['silent_own_property'] = all(x['exit'] == 0 for x in meta['ran'] if x['check'] == prop)
 for f in ('patch.diff', 'notes.md', 'check.py'):
     if os.path.exists(os.path.join(seed_dir, f)):
         shutil.copy(os.path.join(seed_dir, f), keep)
 json.dump(meta, open(os.path.join(keep, 'meta.json'), 'w'), indent=1)
-print(f'{sid}: silent={meta["silent"]}')
+print(f'{sid}: silent={meta["silent"]} own-property-check-silent={meta["silent_own_property"]}')
